@@ -59,6 +59,10 @@ pub enum DataKind {
     Period(u32),
     /// random 24-byte markers separated by constant filler (C07)
     Marker,
+    /// adversarial content: 64-byte units, each a well-formed FileContent block for the
+    /// given file id (47 bytes of payload), so that the content parses as valid blocks
+    /// at every 64-aligned offset
+    Tiles(u64),
 }
 
 /// Deterministic content of file `f`: the first `len` bytes of an infinite stream
@@ -84,6 +88,13 @@ pub fn file_bytes(seed: u64, f: usize, kind: DataKind, len: usize) -> Vec<u8> {
             let p = p.max(1) as usize;
             let pat = rng.bytes(p);
             (0..len).map(|i| pat[i % p]).collect()
+        }
+        DataKind::Tiles(id) => {
+            let mut unit = vec![0x01u8];
+            unit.extend_from_slice(&id.to_le_bytes());
+            unit.extend_from_slice(&47u64.to_le_bytes());
+            unit.extend_from_slice(&[b'E'; 47]);
+            (0..len).map(|i| unit[i % 64]).collect()
         }
         DataKind::Marker => {
             let mut v = Vec::with_capacity(len + 64);
